@@ -346,7 +346,7 @@ pub fn run_c04(args: &Args) {
         "C04",
         "modelcheck c04",
         args,
-        "random DAGs (optimised and not; some containing unseeded RandomUniform/RandomNormal(Like) operators): for every subset S of the inputs (all subsets for <=4 inputs) partial_run(S, outputs) is fed back together with the remaining inputs and the result compared with a single full run (integers exact, floats 1e-6 rel). For random operators: nothing downstream of one may be returned by partial_run(no inputs), and two runs of the optimised model must give different random outputs (so it was not folded into a constant). non-trivial = partial_run returned at least one value that is neither an input nor a requested output; distinct by (case, input set, subset)",
+        "random DAGs (optimised and not; some containing unseeded RandomUniform/RandomNormal(Like) operators): for every subset S of the inputs (all subsets for <=4 inputs; inputs passed once as views and once as owned values the executor may consume in place) partial_run(S, outputs) - outputs being the graph outputs, and the graph outputs plus one graph input and one constant - is fed back together with the remaining inputs and the result compared with a single full run (integers exact, floats 1e-6 rel). For random operators: nothing downstream of one may be returned by partial_run(no inputs), and two runs of the optimised model must give different random outputs (so it was not folded into a constant). non-trivial = partial_run returned at least one value that is neither an input nor a requested output; distinct by (case, input set, subset)",
     );
     let cases = cases_from(args, "dag,dagrand,cflow");
     for c in &cases {
@@ -365,10 +365,34 @@ pub fn run_c04(args: &Args) {
                 if det_outputs.is_empty() {
                     continue;
                 }
-                let Ok(full) = run_simple(&model, &inputs, &det_outputs, None) else { continue };
+                // Requested outputs: the deterministic graph outputs, then the same plus
+                // one graph input and one constant (outputs that are inputs or constants).
+                let mut output_variants: Vec<Vec<String>> = vec![det_outputs.clone()];
+                {
+                    let mut rng = Rng::derive(args.seed, (k as u64) << 8 | optimize as u64);
+                    let mut v = det_outputs.clone();
+                    if !inputs.is_empty() {
+                        v.insert(rng.below(v.len() + 1), inputs[rng.below(inputs.len())].name.clone());
+                    }
+                    let consts: Vec<&String> = c.initializers.iter().filter(|n| node_id(&model, n).is_some()).collect();
+                    if !consts.is_empty() {
+                        v.insert(rng.below(v.len() + 1), consts[rng.below(consts.len())].clone());
+                    }
+                    if v.len() > det_outputs.len() {
+                        output_variants.push(v);
+                    }
+                }
+                for (variant, det_outputs) in output_variants.iter().enumerate() {
+                let Ok(full) = run_simple(&model, &inputs, det_outputs, None) else { continue };
+                if variant > 0 {
+                    rep.count("output_lists_with_input_or_constant");
+                }
                 let n = inputs.len();
                 let subsets: Vec<u32> = if n <= 4 { (0..(1u32 << n)).collect() } else { vec![0, 1, (1 << n) - 1, 0b1010 & ((1 << n) - 1), 0b0101 & ((1 << n) - 1)] };
-                for mask in subsets {
+                for (mask, owned) in subsets.iter().flat_map(|m| [(*m, false), (*m, true)]) {
+                    if owned && mask == 0 {
+                        continue;
+                    }
                     rep.eval();
                     let vals: Vec<Value> = inputs.iter().map(|t| t.to_value()).collect();
                     let mut part_ins: Vec<(NodeId, ValueOrView)> = Vec::new();
@@ -376,21 +400,26 @@ pub fn run_c04(args: &Args) {
                     for (i, (t, v)) in inputs.iter().zip(&vals).enumerate() {
                         if mask >> i & 1 == 1 {
                             match node_id(&model, &t.name) {
+                                // Owned inputs may be consumed in place by the executor.
+                                Some(id) if owned => part_ins.push((id, ValueOrView::from(v.clone()))),
                                 Some(id) => part_ins.push((id, ValueOrView::from(v))),
                                 None => ok = false,
                             }
                         }
                     }
+                    if owned {
+                        rep.count("partial_runs_with_owned_inputs");
+                    }
                     let out_ids: Option<Vec<NodeId>> = det_outputs.iter().map(|o| node_id(&model, o)).collect();
                     let (Some(out_ids), true) = (out_ids, ok) else { continue };
                     let partial = catch(|| model.partial_run(part_ins, &out_ids, None));
-                    let sig_head = format!("C04|{}|ops={}|opt={}|", c.family, ops_sig(c), optimize as u8);
+                    let sig_head = format!("C04|{}|ops={}|opt={}{}{}|", c.family, ops_sig(c), optimize as u8, if owned { ",owned" } else { "" }, if variant > 0 { ",out=input+const" } else { "" });
                     let partial = match partial {
                         Err(p) => {
                             rep.violation(
                                 format!("{}partial_run_panic:{}", sig_head, panic_class(&p)),
                                 format!("partial_run with input subset {:b} panicked: {}", mask, p),
-                                json!({"case": small_case_json(c), "input_set": k, "subset": mask, "optimize": optimize}),
+                                json!({"case": small_case_json(c), "input_set": k, "subset": mask, "owned": owned, "outputs": det_outputs, "optimize": optimize}),
                             );
                             continue;
                         }
@@ -418,7 +447,7 @@ pub fn run_c04(args: &Args) {
                     }
                     let second = run_prepared(&model, ins2, &det_outputs, None);
                     if interesting {
-                        rep.nontrivial(&(&c.id, optimize, k, mask));
+                        rep.nontrivial(&(&c.id, optimize, k, mask, owned, variant));
                         rep.count("partial_results_with_intermediates");
                     }
                     match second {
@@ -426,7 +455,7 @@ pub fn run_c04(args: &Args) {
                             rep.violation(
                                 format!("{}second_stage_{}", sig_head, if e.starts_with("PANIC") { "panic" } else { "error" }),
                                 format!("run(partial_run(S={:b}) + remaining inputs) fails although the full run succeeds: {}", mask, e),
-                                json!({"case": small_case_json(c), "input_set": k, "subset": mask, "optimize": optimize}),
+                                json!({"case": small_case_json(c), "input_set": k, "subset": mask, "owned": owned, "outputs": det_outputs, "optimize": optimize}),
                             );
                         }
                         Ok(got) => {
@@ -435,7 +464,7 @@ pub fn run_c04(args: &Args) {
                                     rep.violation(
                                         format!("{}{}", sig_head, mismatch_kind(&diff)),
                                         format!("output {} of run(partial_run(S={:b}) + rest) differs from the full run: {}", g.name, mask, diff),
-                                        json!({"case": small_case_json(c), "input_set": k, "subset": mask, "optimize": optimize, "got": g.to_json(), "full": f.to_json()}),
+                                        json!({"case": small_case_json(c), "input_set": k, "subset": mask, "owned": owned, "outputs": det_outputs, "optimize": optimize, "got": g.to_json(), "full": f.to_json()}),
                                     );
                                     break;
                                 }
@@ -445,6 +474,7 @@ pub fn run_c04(args: &Args) {
                             }
                         }
                     }
+                }
                 }
             }
         }
